@@ -89,6 +89,9 @@ func c17Parse(idl string) (*thrift.TypeDescriptor, *thrift.TypeDescriptor, error
 func genC17(r *rng, n int) {
 	// a fault inside the native code (finding 1715) must surface as a recoverable panic, not kill the harness
 	debug.SetPanicOnFault(true)
+	// main.go seeds the stream with seed*G and the stream advances by G: streams of consecutive seeds are shifts of each other.
+	// Re-seed from the first output so that different seeds give unrelated cases.
+	r = &rng{s: r.next()}
 	nReq := n * 7 / 10
 	for out.count < nReq {
 		c17Request(r.fork(), false)
@@ -148,7 +151,11 @@ func c17Request(r *rng, big bool) {
 					}
 					for _, k := range fkeys {
 						if r.chance(density) || (len(f.Anns) > 0 && r.chance(40)) {
-							pops = append(pops, hPop{Kind: kind, Key: k, Val: g.httpText(f.T)})
+							val := g.httpText(f.T)
+							if kind == hkCookie && strings.ContainsAny(val, "\"\\;") && r.chance(90) {
+								continue // net/http drops these bytes from cookie values
+							}
+							pops = append(pops, hPop{Kind: kind, Key: k, Val: val})
 						}
 					}
 				}
@@ -271,6 +278,14 @@ func c17Response(r *rng) {
 		var outb []byte
 		var cerr error
 		ok, msg := noPanic(func() {
+			if c17Debug {
+				defer func() {
+					if r := recover(); r != nil {
+						fmt.Fprintf(os.Stderr, "PANIC %v\n%s\n", r, debug.Stack())
+						panic(r)
+					}
+				}()
+			}
 			cv := t2j.NewBinaryConv(c17Opts(bits))
 			outb, cerr = cv.Do(ctx, desc, in)
 		})
